@@ -58,6 +58,42 @@ func genPowers(r *rng, n int) []*big.Int {
 	return ps
 }
 
+// genPowersDominant: a table whose TOTAL has exactly `bits` bits and whose first member holds 50-99 % of it -- swept over
+// every bit length, this puts the scaling arithmetic (0xffff * power / total) on both sides of every native integer width
+// (2^15, 2^16, 2^31, 2^32, 2^47, 2^48, 2^63, 2^64, ...) with a large numerator.
+func genPowersDominant(r *rng, n int, bits int) []*big.Int {
+	if bits < 8 {
+		bits = 8
+	}
+	total := new(big.Int).Lsh(big.NewInt(1), uint(bits-1))
+	total.Add(total, new(big.Int).Rsh(new(big.Int).Lsh(big.NewInt(int64(r.intn(1000))), uint(bits-1)), 10)) // [2^(bits-1), 2^bits)
+	share := int64(50 + r.intn(50))
+	dom := new(big.Int).Div(new(big.Int).Mul(total, big.NewInt(share)), big.NewInt(100))
+	rest := new(big.Int).Sub(total, dom)
+	ps := []*big.Int{dom}
+	for i := 1; i < n; i++ {
+		p := new(big.Int).Div(rest, big.NewInt(int64(n-1)))
+		if i == n-1 { // remainder to the last one, so that the total is exact
+			p = new(big.Int).Sub(rest, new(big.Int).Mul(new(big.Int).Div(rest, big.NewInt(int64(n-1))), big.NewInt(int64(n-2))))
+		}
+		if p.Sign() <= 0 {
+			p = big.NewInt(1)
+		}
+		ps = append(ps, p)
+	}
+	return ps
+}
+
+// bit lengths next to the native integer widths first, then everything else
+var criticalBits = []int{48, 64, 32, 16, 47, 63, 31, 15, 49, 65, 33, 17, 56, 80, 128, 24, 40, 72, 96, 200}
+
+func sweepBits(k int) int {
+	if k < len(criticalBits) {
+		return criticalBits[k]
+	}
+	return 8 + (k-len(criticalBits))%120
+}
+
 func mkPowerTable(ps []*big.Int) (*gpbft.PowerTable, error) {
 	pt := gpbft.NewPowerTable()
 	entries := make([]gpbft.PowerEntry, len(ps))
@@ -66,4 +102,27 @@ func mkPowerTable(ps []*big.Int) (*gpbft.PowerTable, error) {
 	}
 	err := pt.Add(entries...)
 	return pt, err
+}
+
+// Independent quorum arithmetic for ORACLES of the harness (never the implementation's own functions: a defect in
+// IsStrongQuorum / Scaled must not be mirrored by the monitor that is supposed to notice it).
+func indepStrong(part, whole int64) bool {
+	return new(big.Int).Mul(big.NewInt(3), big.NewInt(part)).Cmp(new(big.Int).Mul(big.NewInt(2), big.NewInt(whole))) >= 0
+}
+
+// floor(65535 * power / total) per entry, and their sum
+func indepScaled(table gpbft.PowerEntries) ([]int64, int64) {
+	total := new(big.Int)
+	for _, e := range table {
+		total.Add(total, e.Power.Int)
+	}
+	out := make([]int64, len(table))
+	var sum int64
+	for i, e := range table {
+		if total.Sign() > 0 {
+			out[i] = new(big.Int).Div(new(big.Int).Mul(big.NewInt(65535), e.Power.Int), total).Int64()
+		}
+		sum += out[i]
+	}
+	return out, sum
 }
